@@ -350,7 +350,15 @@ class SyncInterpreter(BaseInterpreter[TContext, TEvent]):
         #    no timeout and no way to interrupt it. The same ceiling now
         #    applies to both paths.
         processed = 0
-        limit = getattr(self.machine, "max_iterations", 1000)
+        # 📥 Events already waiting when the drain starts were queued from
+        #    outside (`send_events([...])`, timers, other actors) and are not
+        #    part of any self-feeding chain, so they do not count against the
+        #    bound: `send_events` with more than `max_iterations` events used
+        #    to process the first `max_iterations` and silently discard the
+        #    rest. Only what is enqueued *during* the drain is bounded.
+        limit = getattr(self.machine, "max_iterations", 1000) + len(
+            self._event_queue
+        )
         try:
             while self._event_queue:
                 # 🏁 Completion (or failure) ends processing: `send()` already
